@@ -142,4 +142,17 @@ CLAIMS.update({
         note=COMMON_NOTE + ' The goroutine system is a hand-written abstraction of backgroundRevalidate at the granularity of channel/context operations; its tie to the code is the observed absence of '
              'leftover goroutines and the timing correspondence, not a translation. Assumed: the upstream RoundTripper returns once its request context is done.'),
 })
+CLAIMS.update({
+    'C16': dict(
+        text=('Concurrent model Conc.v: RoundTrip calls and the background revalidations they spawn are threads over one store and origin, stepped one store/origin operation at a time by an '
+              'arbitrary schedule. Theorems, for EVERY schedule: C16_thread_follows_its_tree (what a call returns is a leaf of its own sequential effect tree), C16_sequential_rules (every '
+              'property proved of all leaves of the sequential tree for all store answers — the form of the theorems of C01..C19 — holds for concurrent calls), instances C16_no_panic, '
+              'C16_only_if_cached, C16_background_no_panic; C16_store_keys (no interleaving makes a call write under a key of a URI it was not asked for); '
+              'C16_background_ignores_the_returned_response (the background program depends on the value handed to the caller only through its identifier). The run executes generated '
+              'concurrent phases on the real transport under a seeded scheduler at exactly that granularity (testing/synctest), replays the recorded schedules on the extracted model and '
+              'compares results and labelled operation traces; snapshots every returned response and request and re-checks them after all later activity; and runs a free-running stress on '
+              'memcache and fscache under the Go race detector with per-response consistency checks.'),
+        note=COMMON_NOTE + ' Partial: data races and writes through aliased Go pointers cannot be expressed in the value-based model; they are searched for by the run (race detector, snapshots), '
+             'not proved absent. Store operations are taken as atomic (memcache mutex; fscache by C15).'),
+})
 NOT_YET = {}
